@@ -24,13 +24,14 @@ EXPLANATION = ('Every explicit two-operand subscript string over {i,j,k} (<=3 bl
 FUNCTIONS = ['DenseBlockDiagonalOperator.__init__/mv/transpose', 'DenseBlockDiagonalOperator._parse_subscripts', 'DenseBlockDiagonalOperator._get_transposed_subscripts']
 BOUNDS = {'quick': 'all strings of the family that the transposer accepts (about 490) + seeded 250 others; dims i=2, j=3, k=2, ellipsis = one axis of size 2; '
                    'pytree variants for 12 strings',
-          'thorough': 'all ~19 000 einsum-valid strings of the family'}
+          'thorough': 'all ~19 000 einsum-valid strings of the family; the transposable ones also with dims i=3, j=2, k=3'}
 STUBS = []
 ASSUMPTIONS = ['real arithmetic', 'numpy.einsum on exact symbol arrays is the reference semantics of an einsum string']
 RULE = 'case = subscript string (up to renaming) x block layout; non-trivial = the string is accepted by the transposer (adjoint decided); distinct strings'
 BUDGET = {'quick': 400, 'thorough': 3000}
 EXHAUSTIVE = {'thorough': True}
 DIM = {'i': 2, 'j': 3, 'k': 2}
+DIMS = {'a': {'i': 2, 'j': 3, 'k': 2}, 'b': {'i': 3, 'j': 2, 'k': 3}}  # second set: no accidental size coincidence with the ellipsis axis
 
 
 def _operands(maxlen, minlen):
@@ -52,8 +53,8 @@ def _canon(s):
     return order == list('ijk')[:len(order)]
 
 
-def _shape(op):
-    core = [DIM[c] for c in op.replace('...', '')]
+def _shape(op, dims='a'):
+    core = [DIMS[dims][c] for c in op.replace('...', '')]
     if '...' in op:
         k = op.index('...')
         core = core[:k] + [2] + core[k:]
@@ -106,6 +107,8 @@ def cases(tier, seed):
     for s in sample[: (12 if tier == 'quick' else 80)]:
         out.append(('s', s, 'perleaf'))
         out.append(('s', s, 'sharedtree'))
+    if tier == 'thorough':
+        out += [('s', s, 'dims-b') for s in tr]
     out.append(('parse',))
     seen, res = set(), []
     for k in out:
@@ -121,7 +124,10 @@ def twins():
 
 def _structs(s, layout):
     l, r, o = _split(s)
-    bst, xst = S(*_shape(l)), S(*_shape(r))
+    d = 'b' if layout == 'dims-b' else 'a'
+    bst, xst = S(*_shape(l, d)), S(*_shape(r, d))
+    if layout == 'dims-b':
+        return bst, xst
     if layout == 'shared':
         return bst, xst
     if layout == 'perleaf':
@@ -139,7 +145,8 @@ def run_case(key, twin=False):
     bst, xst = _structs(s, layout)
     l, r, o = _split(s)
     try:
-        oshape = np.einsum(s, np.zeros(_shape(l)), np.zeros(_shape(r))).shape
+        dd = 'b' if layout == 'dims-b' else 'a'
+        oshape = np.einsum(s, np.zeros(_shape(l, dd)), np.zeros(_shape(r, dd))).shape
     except Exception as ex:  # noqa: BLE001
         return skipped(f'numpy.einsum rejects {s}: {ex}')
     mk = lambda b: D(b, xst, s)  # noqa: E731
